@@ -211,6 +211,15 @@ func oracle(c *core.Ctx, ex *gate.Exec) {
 				violate("R3-loser-inert", fmt.Sprintf("thread %d (%s) lost but sent %s", t, sc.Ops[t].Short(), e.Label))
 				break
 			}
+			// a loser owns no revision: it must not rewrite the record of a revision that a concurrent operation created
+			// (superseding a pre-existing revision before its own create, as install --replace does, is not covered by the statement)
+			if e.Applied && ((e.Class == "record-write" && e.Verb == "PUT") || (e.Class == "store-write" && strings.HasPrefix(e.Label, "store:Update "))) {
+				rev := e.Label[strings.LastIndex(e.Label, ".v")+2:]
+				if owners := creators[rev]; len(owners) > 0 && owners[0] != t {
+					violate("R3-loser-record-update", fmt.Sprintf("thread %d (%s) created no revision but updated the record of revision %s created by thread %d: %s", t, sc.Ops[t].Short(), rev, owners[0], e.Label))
+					break
+				}
+			}
 		}
 		c.Outcome(sc.Ops[t].Kind + ":loser:" + res.ErrClass())
 	}
@@ -233,6 +242,24 @@ func oracle(c *core.Ctx, ex *gate.Exec) {
 	}
 	if dep > 1 {
 		violate("R4-ledger", fmt.Sprintf("%d revisions are deployed at quiescence", dep))
+	}
+	// a thread that reported success owns a revision that is deployed, or superseded by a later success
+	for t, res := range ex.Results {
+		if res.Failed || createdBy[t] == 0 {
+			continue
+		}
+		for rev, ts := range creators {
+			if len(ts) != 1 || ts[0] != t {
+				continue
+			}
+			var n int
+			fmt.Sscan(rev, &n)
+			for _, r := range h {
+				if r.Version == n && r.Info.Status != rspb.StatusDeployed && r.Info.Status != rspb.StatusSuperseded {
+					violate("R5-winner-status", fmt.Sprintf("thread %d (%s) reported success but its revision %d is %s at quiescence", t, sc.Ops[t].Short(), n, r.Info.Status))
+				}
+			}
+		}
 	}
 	if len(ex.Trace) > 0 {
 		c.Sample(map[string]any{"scenario": sc.Name, "driver": sc.Driver, "steps": len(ex.Trace), "final_ledger": hx.StatusVector(h), "errors": errs(ex.Results)})
